@@ -314,8 +314,68 @@ theorem filterMap_slotDone_map (f : Atom → Atom) (r : List Slot) : (r.map (map
   | nil => rfl
   | cons s r ih => simp only [List.map_cons, List.filterMap_cons, slotDone_map, ih]
 
-theorem createMesg_sim (ar ar' : Arith) (f : Atom → Atom) (hsim : ∀ a, Sim ar ar' f a) (ds : List Desc) (n : Nat)
-    (cs pads : List Cell) (hp : ∀ c ∈ pads, IsPad c) (m : Message) (h : createMesg ar ds n cs = .ok m) :
+theorem readCell_placeholder (ar : Arith) (ds : List Desc) (n : Nat) (c : Cell) (nm : Txt) (v : List Atom)
+    (h : readCell ar ds n c = .ok (.placeholder nm v)) : v = c.val := by
+  obtain ⟨name, val, units⟩ := c
+  unfold readCell at h
+  dsimp only at h
+  repeat' (split at h)
+  all_goals first
+    | (cases h; rfl)
+    | (cases h; done)
+
+/-- a placeholder the first pass leaves carries the value cell of one of the cells -/
+theorem parseCells_inr (ar : Arith) (ds : List Desc) (n : Nat) : ∀ (cs : List Cell) (slots : List Slot) (devs : List DevField),
+    parseCells ar ds n cs = .ok (slots, devs) → ∀ s ∈ slots, ∀ nv, s = Sum.inr nv → ∃ c ∈ cs, nv.2 = c.val
+  | [], slots, devs, h, s, hs, _, _ => by
+    simp only [parseCells, R.ok.injEq, Prod.mk.injEq] at h
+    rw [← h.1] at hs; cases hs
+  | c :: cs, slots, devs, h, s, hs, nv, he => by
+    simp only [parseCells] at h
+    cases hr : readCell ar ds n c with
+    | err => rw [hr] at h; cases h
+    | unmodelled => rw [hr] at h; cases h
+    | ok p =>
+      rw [hr] at h
+      simp only at h
+      cases hrest : parseCells ar ds n cs with
+      | err => rw [hrest] at h; cases h
+      | unmodelled => rw [hrest] at h; cases h
+      | ok sd =>
+        obtain ⟨sl, dv⟩ := sd
+        rw [hrest] at h
+        simp only at h
+        have ih := parseCells_inr ar ds n cs sl dv hrest
+        have lift : (∃ c' ∈ cs, nv.2 = c'.val) → ∃ c' ∈ c :: cs, nv.2 = c'.val :=
+          fun ⟨c', hc', e⟩ => ⟨c', List.mem_cons_of_mem _ hc', e⟩
+        cases p with
+        | field g =>
+          simp only [R.ok.injEq, Prod.mk.injEq] at h
+          rw [← h.1] at hs
+          rcases List.mem_cons.mp hs with h1 | h1
+          · rw [h1] at he; cases he
+          · exact lift (ih s h1 nv he)
+        | dev d =>
+          simp only [R.ok.injEq, Prod.mk.injEq] at h
+          rw [← h.1] at hs
+          exact lift (ih s hs nv he)
+        | placeholder nm v =>
+          simp only [R.ok.injEq, Prod.mk.injEq] at h
+          rw [← h.1] at hs
+          rcases List.mem_cons.mp hs with h1 | h1
+          · rw [h1] at he
+            simp only [Sum.inr.injEq] at he
+            subst he
+            exact ⟨c, List.mem_cons_self .., readCell_placeholder ar ds n c nm v hr⟩
+          · exact lift (ih s h1 nv he)
+        | skip =>
+          simp only [R.ok.injEq, Prod.mk.injEq] at h
+          rw [← h.1] at hs
+          exact lift (ih s hs nv he)
+
+theorem createMesg_sim (ar ar' : Arith) (f : Atom → Atom) (ds : List Desc) (n : Nat)
+    (cs pads : List Cell) (hsim : ∀ c ∈ cs, ∀ a ∈ c.val, Sim ar ar' f a) (hp : ∀ c ∈ pads, IsPad c) (m : Message)
+    (h : createMesg ar ds n cs = .ok m) :
     createMesg ar' ds n (cs.map (mapCell f) ++ pads) = .ok m := by
   unfold createMesg at h ⊢
   rw [parseCells_append_pads ar' ds n pads hp]
@@ -326,7 +386,7 @@ theorem createMesg_sim (ar ar' : Arith) (f : Atom → Atom) (hsim : ∀ a, Sim a
     obtain ⟨slots, devs⟩ := sd
     rw [hpc] at h
     simp only at h
-    rw [parseCells_sim ar ar' f ds n cs slots devs (fun _ _ a _ => hsim a) hpc]
+    rw [parseCells_sim ar ar' f ds n cs slots devs hsim hpc]
     simp only [List.length_map]
     cases hra : revertAll ar n slots.length slots with
     | err => rw [hra] at h; cases h
@@ -334,7 +394,11 @@ theorem createMesg_sim (ar ar' : Arith) (f : Atom → Atom) (hsim : ∀ a, Sim a
     | ok r =>
       rw [hra] at h
       simp only at h
-      rw [revertAll_sim ar ar' f n slots.length slots r (fun _ _ _ _ a _ => hsim a) hra]
+      rw [revertAll_sim ar ar' f n slots.length slots r (by
+        intro s hs nv he a ha
+        obtain ⟨c, hc, e⟩ := parseCells_inr ar ds n cs slots devs hpc s hs nv he
+        rw [e] at ha
+        exact hsim c hc a ha) hra]
       simp only [filterMap_slotDone_map]
       exact h
 
@@ -343,8 +407,9 @@ theorem createMesg_nil (ar : Arith) (ds : List Desc) (n : Nat) : createMesg ar d
 
 /-- **one line**: the reader on the line as scanned from the text (pieces as text, padding cells at the end) ends in the
 state the reader on the writer's own cells ends in -/
-theorem readLine_sim (ar ar' : Arith) (f : Atom → Atom) (hsim : ∀ a, Sim ar ar' f a) (s s' : RState) (name : Txt)
-    (cells pads : List Cell) (hp : ∀ c ∈ pads, IsPad c) (h : readLine ar s (.data name cells) = .ok s') :
+theorem readLine_sim (ar ar' : Arith) (f : Atom → Atom) (s s' : RState) (name : Txt)
+    (cells pads : List Cell) (hsim : ∀ c ∈ cells, ∀ a ∈ c.val, Sim ar ar' f a) (hp : ∀ c ∈ pads, IsPad c)
+    (h : readLine ar s (.data name cells) = .ok s') :
     readLine ar' s (.data name (cells.map (mapCell f) ++ pads)) = .ok s' := by
   unfold readLine at h ⊢
   simp only at h ⊢
@@ -384,7 +449,7 @@ theorem readLine_sim (ar ar' : Arith) (f : Atom → Atom) (hsim : ∀ a, Sim ar 
         | unmodelled => rw [hcm] at hk; cases hk
         | ok m =>
           rw [hcm] at hk
-          rw [createMesg_sim ar ar' f hsim s1.ds num cells pads hp m hcm]
+          rw [createMesg_sim ar ar' f s1.ds num cells pads hsim hp m hcm]
           exact hk
       · rw [hce] at hk
         simp only [↓reduceIte] at hk
@@ -392,7 +457,7 @@ theorem readLine_sim (ar ar' : Arith) (f : Atom → Atom) (hsim : ∀ a, Sim ar 
         subst hc0
         cases hpe : (([] : List Cell).map (mapCell f) ++ pads).isEmpty
         · simp only [Bool.false_eq_true, ↓reduceIte]
-          rw [createMesg_sim ar ar' f hsim s1.ds num [] pads hp _ (createMesg_nil ar s1.ds num)]
+          rw [createMesg_sim ar ar' f s1.ds num [] pads (fun c hc => nomatch hc) hp _ (createMesg_nil ar s1.ds num)]
           simpa using hk
         · simp only [↓reduceIte]
           exact hk
